@@ -78,7 +78,8 @@ def run(ctx):
              if any(f["py"] for f in p["files"])]
     n_rand = 250 if ctx.quick else 5000
     for _ in range(n_rand):
-        p = projgen.random_project(rng, max_depth=rng.choice([2, 3, 4]), positions=False, n_stmts=rng.randint(4, 30))
+        p = projgen.random_project(rng, max_depth=rng.choice([2, 3, 4]), positions=False, n_stmts=rng.randint(4, 30),
+                                   odd=rng.random() < 0.3)
         specs.append(episode_for(p, rng, 6))
     # real source trees found on this machine (harness/wild.py), abstracted independently of pytestarch
     wspecs, wtrees = wc.specs(ctx, random.Random(ctx.seed * 7919 + 100), "C10")
